@@ -37,7 +37,9 @@ fn gen_first_model(r: &mut Rng, o: &FullOpts, ids: &mut usize) -> SModel {
     let mut chains = Vec::new();
     let mut serial = if r.chance(1, 10) { 99_900 } else { 0 };
     let mut used: Vec<String> = Vec::new();
+    let restart_serials = o.target == Target::Pdb && r.chance(1, 6);
     for _ in 0..n_chains {
+        if restart_serials { serial = 0; }
         let id = loop { let c = r.pick(NAMES1).to_string(); if !used.contains(&c) { used.push(c.clone()); break c; } if used.len() >= NAMES1.len() { break "Z".to_string(); } };
         let mut residues = Vec::new();
         let mut num = if r.chance(1, 6) { *r.pick(&[-999i64, -5, 0, 9950]) } else { r.range(1, 40) };
@@ -101,7 +103,7 @@ pub fn gen_full(r: &mut Rng, o: &FullOpts) -> PDB {
     }
     let mut pdb = s.to_real().expect("structure builds");
     if o.metadata {
-        if r.chance(2, 3) { pdb.identifier = Some(r.pick(&["1ABC", "9XYZ", "4HHB"]).to_string()); }
+        if r.chance(2, 3) { pdb.identifier = Some(if o.target == Target::Cif && r.chance(1, 4) { r.pick(&["1E10", "0042", "2E23", "1e5"]) } else { r.pick(&["1ABC", "9XYZ", "4HHB"]) }.to_string()); }
         for _ in 0..r.below(3) { let _ = pdb.add_remark(*r.pick(&[1usize, 2, 3, 350, 465, 999]), r.pick(&["RESOLUTION. 1.50 ANGSTROMS.", "AUTHOR X", "THIS ENTRY"]).to_string()); }
         if r.chance(1, 2) {
             // edges from 1 to 1000 Å (every edge on its own: an edge is not an angle)
